@@ -205,8 +205,18 @@ impl C18 {
     /// build the input cell for `data` in one of several forms; returns (cell, form name)
     fn input_form(&self, data: &[u8], rng: &mut Rng) -> (Cell, &'static str) {
         let ascii = data.iter().all(|b| *b < 0x80 && *b != 0);
-        let form = rng.below(6);
+        let form = rng.below(8);
         match form {
+            6 | 7 => {
+                // a byte-aligned view into a longer buffer: a field cut out of binary input with `n bytes`
+                let lead = rng.below(4);
+                let trail = if form == 6 { 1 + rng.below(5) } else { rng.below(2) };
+                let mut buf: Vec<u8> = (0..lead).map(|_| rng.next_u64() as u8).collect();
+                buf.extend_from_slice(data);
+                buf.extend((0..trail).map(|_| rng.next_u64() as u8));
+                let whole = Xbitstr::from(buf);
+                (Cell::from(whole.substr(lead * 8, (lead + data.len()) * 8).expect("harness substr")), "aligned-view-of-longer-buffer")
+            }
             0 if ascii && !data.is_empty() => (Cell::from(String::from_utf8(data.to_vec()).unwrap()), "string"),
             1 => {
                 let mut v = Xvec::new();
